@@ -5,6 +5,7 @@ package gen
 import (
 	"math/rand/v2"
 	"strconv"
+	"strings"
 )
 
 func NewRng(seed uint64, idx int) *rand.Rand {
@@ -13,7 +14,10 @@ func NewRng(seed uint64, idx int) *rand.Rand {
 
 // NameClasses is the alphabet of C01: identifiers, space, unicode, '/', '~', '?', '#', brackets, braces.
 // Excluded on purpose: '%', '.', '..', the empty name, '"' and '\'.
-var NameClasses = []string{"ident", "space", "unicode", "slash", "tilde", "qmark", "hash", "bracket", "brace"}
+var NameClasses = []string{"ident", "space", "unicode", "slash", "tilde", "qmark", "hash", "bracket", "brace", "symbols"}
+
+// symbolsOnly: names without any letter or digit (name mangling reduces them to nothing)
+var symbolsOnly = []string{"{}", "[]", "?", "#", "~", "{?}", "[#]", "/", " ", "~/", "{ }", "()"}
 
 var idents = []string{"pet", "owner", "tag", "item", "node", "order", "user", "kind", "leaf", "data", "rec", "val"}
 
@@ -22,6 +26,8 @@ func Name(rng *rand.Rand, class string, n int) string {
 	b := idents[rng.IntN(len(idents))]
 	s := strconv.Itoa(n)
 	switch class {
+	case "symbols":
+		return symbolsOnly[n%len(symbolsOnly)] + strings.Repeat("?", n/len(symbolsOnly))
 	case "space":
 		return b + " " + s
 	case "unicode":
